@@ -464,6 +464,10 @@ func cmdCheck(args []string) {
 		tl = append(tl, "inlined helper (verified as part of its callers): "+n)
 	}
 	sort.Strings(tl)
+	if tl == nil {
+		tl = []string{}
+	}
+	tl = append(tl, "govc verification-condition generator (engine/), SMT solvers z3 5.1.0 / cvc5 1.0.3 / z3 4.8.12, go/types")
 	level := ps.Level
 	if level == "" {
 		level = "proof"
